@@ -13,10 +13,10 @@ OPS = ['afb2d_nonsep', 'sfb2d_nonsep', 'afb2d', 'sfb2d']
 MODES4 = [0, 1, 4, 2]
 
 
-def oracle_eq(ck, m, four, h, x=None, co=None):
+def oracle_eq(ck, m, four, h, x=None, co=None, tol=0.0):
     """h = (c0, c1, r0, r1) raw filters; compares on the real code"""
     hc0, hc1, hr0, hr1 = h
-    replay = {'oracle': 'nonsep', 'm': m, 'four': four, 'h': [arr_json(f) for f in h], 'x': arr_json(x), 'co': arr_json(co)}
+    replay = {'oracle': 'nonsep', 'm': m, 'four': four, 'h': [arr_json(f) for f in h], 'x': arr_json(x), 'co': arr_json(co), 'tol': tol}
     if x is not None:
         desc = 'afb2d_nonsep vs afb2d mode=%s L=(%d,%d) shape=%s' % (gen.MODE_NAME[m], len(hc0), len(hr0), tuple(x.shape))
         a = rt.run_impl(rt.Case('Z', 'afb2d_nonsep', [m, ck.rng.randint(0, 2)], [hc0, hc1, hr0, hr1, x]), IMPL)
@@ -37,7 +37,7 @@ def oracle_eq(ck, m, four, h, x=None, co=None):
             kk = 'C19-sfb-nonsep-inplace-overlap'
         ck.fail(desc + ': %s raises (%s), the other returns' % ('nonsep' if ra else 'separable', (a if ra else b)[2][:80]), replay, known_key=kk)
         return 'raise'
-    ok, why = same(a, b)
+    ok, why = same(a, b, tol)
     if ok:
         ck.oracle_ok((m, four, len(hc0), len(hr0), tuple((x if x is not None else co).shape)), group='afb' if x is not None else 'sfb',
                      sample={'what': desc, 'out_head': [float(v) for v in np.ravel(a[0])[:4]]})
@@ -52,6 +52,15 @@ def oracle(ck, extended):
     # deterministic witness of the recorded finding (single tiny coefficient image, length-8 filters, periodization)
     w8a = np.array([1., 2., 3., 4., -1., 2., 1., -3.]); w8b = np.array([2., -1., 3., 1., 1., -2., 2., 1.])
     rt.guard(ck, oracle_eq, ck, 2, False, (w8a, w8b, w8a, w8b), None, gen.int_tensor(rng, (1, 1, 4, 2, 2)))
+    # taps that are not float32 numbers (the shipped wavelets), double precision data: agreement to double rounding
+    import pywt
+    for name in ['db2', 'db3', 'sym4', 'bior2.2', 'coif1'] + ([] if q else ['db5', 'bior4.4', 'rbio3.3']):
+        w = pywt.Wavelet(name)
+        for m in MODES4:
+            fa = (np.array(w.dec_lo), np.array(w.dec_hi)) * 2; fs = (np.array(w.rec_lo), np.array(w.rec_hi)) * 2
+            L = len(w.dec_lo)
+            rt.guard(ck, oracle_eq, ck, m, False, fa, gen.float_tensor(ck.nprng, (1, 2, gen.pick_len(rng, L, 16), gen.pick_len(rng, L, 16))), None, 1e-12)
+            rt.guard(ck, oracle_eq, ck, m, False, fs, None, gen.float_tensor(ck.nprng, (1, 2, 4, rng.randint(L // 2 + 1, 9), rng.randint(L // 2 + 1, 9))), 1e-12)
     for it in range((120 if q else 1200) * (3 if extended else 1)):
         Lc = rng.randint(2, 8 if q else 14); m = rng.choice(MODES4)
         four = rng.random() < 0.5
@@ -80,7 +89,7 @@ def replay(ck, path):
     if not f:
         print('replay file names no failing input: %s' % d.get('broken_obligations'))
         return 1
-    oracle_eq(ck, f['m'], f['four'], tuple(arr_from(a) for a in f['h']), x=arr_from(f['x']), co=arr_from(f['co']))
+    oracle_eq(ck, f['m'], f['four'], tuple(arr_from(a) for a in f['h']), x=arr_from(f['x']), co=arr_from(f['co']), tol=f.get('tol', 0.0))
     for fl in ck.failures:
         print('REPLAY-FAILS: ' + fl['desc'])
     if not ck.failures:
